@@ -102,7 +102,7 @@ func (mod *Module) findIdentityBase(baseStr string) (*resolvedIdentity, []error)
 	case "", rootPrefix:
 		// This is a local identity which is defined within the current
 		// module
-		keyName := fmt.Sprintf("%s:%s", module(mod).Name, baseName)
+		keyName := fmt.Sprintf("%s:%s", moduleName(mod), baseName)
 		base, ok = typeDict.identities.dict[keyName]
 		if !ok {
 			errs = append(errs, fmt.Errorf("%s: can't resolve the local base %s as %s", source, baseStr, keyName))
@@ -116,7 +116,7 @@ func (mod *Module) findIdentityBase(baseStr string) (*resolvedIdentity, []error)
 			break
 		}
 		// The identity we are looking for is modulename:basename.
-		if id, ok := typeDict.identities.dict[fmt.Sprintf("%s:%s", module(extmod).Name, baseName)]; ok {
+		if id, ok := typeDict.identities.dict[fmt.Sprintf("%s:%s", moduleName(extmod), baseName)]; ok {
 			base = id
 			break
 		}
@@ -212,7 +212,7 @@ func (ms *Modules) resolveIdentities() []error {
 			if newValues[j].Name != newValues[k].Name {
 				return newValues[j].Name < newValues[k].Name
 			}
-			return module(newValues[j]).Name < module(newValues[k]).Name
+			return moduleName(newValues[j]) < moduleName(newValues[k])
 		})
 		i.Identity.Values = newValues
 	}
